@@ -207,7 +207,8 @@ func VerifyFunction(p *Program, fn *ssa.Function, c *Contract) (fc *FuncCtx, err
 	fr.entrySt = fc.entry
 	fc.bindParams(fr, fn, args, fvs, st)
 	fc.entryVars = fr.params
-	// requires
+	// requires (a closure verified on its own may constrain its captured variables by name;
+	// at entry no other local exists)
 	env := fc.envFor(fr, st, nil, false)
 	for _, rq := range c.Requires {
 		t, e := env.ElabBool(rq.Expr)
@@ -273,6 +274,19 @@ func (fc *FuncCtx) freshVal(name string, t types.Type, st *State) Val {
 		return Val{Tup: vs}
 	}
 	s := sortOf(t)
+	if sty, ok := t.Underlying().(*types.Struct); ok && s == nil {
+		// an arbitrary struct value: a tuple of arbitrary field values
+		var vs []Val
+		for i := 0; i < sty.NumFields(); i++ {
+			f := sty.Field(i)
+			if _, nested := f.Type().Underlying().(*types.Struct); nested || sortOf(f.Type()) == nil {
+				vs = append(vs, Val{})
+				continue
+			}
+			vs = append(vs, fc.freshVal(name+"."+f.Name(), f.Type(), st))
+		}
+		return Val{Tup: vs}
+	}
 	if s == nil {
 		if _, ok := t.Underlying().(*types.Pointer); ok {
 			// pointer to scalar: an opaque one-element heap cell
@@ -330,8 +344,29 @@ func (fc *FuncCtx) envFor(fr *Frame, st *State, results []Val, useLocals bool) *
 	}
 	if useLocals {
 		env.local = func(name string) (SVal, bool) { return fc.lookupLocal(fr, st, name) }
+	} else if len(fr.fn.FreeVars) > 0 {
+		// a closure verified on its own: its requires/ensures may name the captured variables
+		env.local = func(name string) (SVal, bool) { return fc.lookupFree(fr, st, name) }
 	}
 	return env
+}
+
+func (fc *FuncCtx) lookupFree(fr *Frame, st *State, name string) (SVal, bool) {
+	for _, fv := range fr.fn.FreeVars {
+		if fv.Name() == name {
+			lv := fr.regs[fv]
+			if lv.LV != nil {
+				v := fc.load(fr, st, lv.LV, token.NoPos)
+				if v.T != nil {
+					return SVal{T: v.T, Typ: lv.LV.Typ}, true
+				}
+			}
+			if lv.T != nil {
+				return SVal{T: lv.T, Typ: fv.Type()}, true
+			}
+		}
+	}
+	return SVal{}, false
 }
 
 func (fc *FuncCtx) lookupLocal(fr *Frame, st *State, name string) (SVal, bool) {
@@ -1025,6 +1060,21 @@ func (fc *FuncCtx) contractModHeaps(f *ssa.Function, c *Contract) []string {
 				}
 			}
 		}
+		if len(f.Params) == 0 && f.Signature != nil {
+			// external function without a body: parameter types from the signature
+			var ptypes []types.Type
+			if f.Signature.Recv() != nil {
+				ptypes = append(ptypes, f.Signature.Recv().Type())
+			}
+			for i := 0; i < f.Signature.Params().Len(); i++ {
+				ptypes = append(ptypes, f.Signature.Params().At(i).Type())
+			}
+			for i, pt := range ptypes {
+				if s := sortOf(pt); s != nil && i < len(names) {
+					env.vars[names[i]] = SVal{T: Var("$m."+names[i], s), Typ: pt}
+				}
+			}
+		}
 	}
 	var out []string
 	for _, m := range c.Modifies {
@@ -1259,6 +1309,13 @@ func (fc *FuncCtx) bindLoopVars(fr *Frame, li *loopInfo, st *State, env *Env) {
 			}
 		}
 	}
+	// $variant<n>: the value the variant (`decreases`) of loop n had at its head in the current iteration of loop n;
+	// lets the invariants of an inner loop record the progress made since the head of the enclosing loop
+	for _, l := range fr.loops {
+		if l != li && l.variant != nil {
+			env.vars[fmt.Sprintf("$variant%d", l.ordinal)] = SVal{T: l.variant, Typ: tInt}
+		}
+	}
 	// $i: number of completed iterations of this range loop (= next index);
 	// $i<n>: the same for the enclosing/other range loop with ordinal n
 	for _, l := range fr.loops {
@@ -1276,6 +1333,7 @@ func (fc *FuncCtx) bindLoopVars(fr *Frame, li *loopInfo, st *State, env *Env) {
 		// not grown since the head of the enclosing loop" through the inner loop)
 		if l != li && l.variant != nil {
 			env.vars[fmt.Sprintf("$variant%d", l.ordinal)] = SVal{T: l.variant, Typ: tInt}
+			env.vars[fmt.Sprintf("$v%d", l.ordinal)] = SVal{T: l.variant, Typ: tInt}
 		}
 	}
 }
@@ -1289,6 +1347,8 @@ func (fc *FuncCtx) loopInvariants(fr *Frame, li *loopInfo, entry *State, mi *mod
 			out = append(out, invariant{text: cl.Text, at: func(st *State) *Term {
 				env := fc.envFor(fr, st, nil, true)
 				fc.bindLoopVars(fr, li, st, env)
+				env.entrySt = entry
+				env.entryLocal = func(name string) (SVal, bool) { return fc.lookupLocal(fr, entry, name) }
 				t, err := env.ElabBool(cl.Expr)
 				if err != nil {
 					panic(elabErr{fmt.Sprintf("%s:%d: invariant: %v", c.File, cl.Line, err)})
